@@ -126,8 +126,10 @@ class Plan(object):
         return uniq[:limit]
 
 
-def build(plans, order=None, rename=None, maxtime=2):
-    """Instantiate one or several plans into one Model with the real constructors. Returns Ctx."""
+def build(plans, order=None, rename=None, maxtime=2, interrupt=None):
+    """Instantiate one or several plans into one Model with the real constructors. Returns Ctx.
+    interrupt = (pos, fn): fn() is called after `pos` declarations have been made (pos = number of declarations: before the
+    post-declaration calls; pos = number of declarations + 1: after them) - something else happening in the process meanwhile."""
     if isinstance(plans, Plan):
         plans = [plans]
     ctx = Ctx(rename)
@@ -138,12 +140,19 @@ def build(plans, order=None, rename=None, maxtime=2):
         decls.extend(p.decls)
     if order is None:
         order = range(len(decls))
-    for i in order:
+    order = list(order)
+    for n, i in enumerate(order):
+        if interrupt is not None and interrupt[0] == n:
+            interrupt[1]()
         d = decls[i]
         ctx.objs[d.key] = d.make(ctx)
+    if interrupt is not None and interrupt[0] == len(order):
+        interrupt[1]()
     for p in plans:
         for fn in p.posts:
             fn(ctx)
+    if interrupt is not None and interrupt[0] == len(order) + 1:
+        interrupt[1]()
     return ctx
 
 
@@ -364,21 +373,28 @@ def reg_onecountry(plan, cc, currency=None):
     plan.meta[k('gov')] = k('TRE')
 
 
-def reg_federation(plan, prefix, currency=None, regions=('N', 'S')):
-    """REG2-style federation: a central-government Region + 1..2 Regions sharing its currency."""
+def reg_federation(plan, prefix, currency=None, regions=('N', 'S'), place=None):
+    """REG2-style federation: a central-government Region + 1..2 Regions sharing its currency.
+    place: where the zone-wide objects live, e.g. {'DEP': 'N'} puts the deposit market into region N instead of the
+    central-government region (its issuer / the taxing sector stay where they are)."""
     g = prefix + 'GOV'
+    place = {kk: prefix + v for kk, v in (place or {}).items()}
     plan.features.add('layout:fed')
     country(plan, g, currency, kind='Country' if currency is not None else 'Region')
     k = lambda cc, s: cc + '.' + s
     plan.decl(k(g, 'TRE'), lambda c: sd.Treasury(c[g], 'TRE'), group=g)
     plan.decl(k(g, 'CB'), lambda c: sd.CentralBank(c[g], 'CB', treasury=c[k(g, 'TRE')]), needs=(k(g, 'TRE'),), group=g)
-    plan.decl(k(g, 'MON'), lambda c: sd.MoneyMarket(c[g], issuer_short_code='CB'), group=g, kind='market')
-    plan.decl(k(g, 'DEP'), lambda c: sd.DepositMarket(c[g], issuer_short_code='TRE'), group=g, kind='market')
-    plan.decl(k(g, 'TF'), lambda c: sd.TaxFlow(c[g], 'TF', taxrate=.2, taxes_paid_to='TRE'), group=g, kind='flow')
-    plan.params += [(k(g, 'TF'), 'TaxRate')]
     rcodes = [prefix + r for r in regions]
     for rc in rcodes:
         country(plan, rc, currency, kind='Region')
+    pm, pd, pt = place.get('MON', g), place.get('DEP', g), place.get('TF', g)
+    if place:
+        plan.features.add('zone-wide-object-outside-government-region')
+    plan.decl(k(g, 'MON'), lambda c: sd.MoneyMarket(c[pm], issuer_short_code='CB'), group=pm, kind='market')
+    plan.decl(k(g, 'DEP'), lambda c: sd.DepositMarket(c[pd], issuer_short_code='TRE'), group=pd, kind='market')
+    plan.decl(k(g, 'TF'), lambda c: sd.TaxFlow(c[pt], 'TF', taxrate=.2, taxes_paid_to='TRE'), group=pt, kind='flow')
+    plan.params += [(k(g, 'TF'), 'TaxRate')]
+    for rc in rcodes:
         plan.decl(k(rc, 'HH'), lambda c, rc=rc: sd.Household(c[rc], 'HH'), group=rc)
         plan.params += [(k(rc, 'HH'), 'AlphaIncome'), (k(rc, 'HH'), 'AlphaFin')]
         plan.decl(k(rc, 'GOOD'), lambda c, rc=rc: Market(c[rc], 'GOOD'), group=rc, kind='market')
@@ -517,6 +533,12 @@ def zoo(tier='quick'):
     p = Plan('fed1')
     reg_federation(p, '', None, regions=('N',))
     Z.append(p)
+    # zone-wide objects (deposit market, money market, tax flow) placed in another region than their issuer / the taxing sector
+    for nm, pl, regs in (('fed_dep_in_region', {'DEP': 'N'}, ('N', 'S')), ('fed_tf_in_region', {'TF': 'S'}, ('N', 'S')),
+                         ('fed1_all_in_region', {'DEP': 'N', 'MON': 'N', 'TF': 'N'}, ('N',))):
+        p = Plan(nm)
+        reg_federation(p, '', None, regions=regs, place=pl)
+        Z.append(p)
     # --- two zones with external sector
     G = lambda s, d, **kw: (lambda p: gift(p, s, d, **kw))
     I = lambda a, b: (lambda p: imports(p, a, b))
@@ -555,6 +577,16 @@ def zoo(tier='quick'):
     gift(p, 'RR.HH_N', 'BB.HH')
     p.positive.append(('EXT.XR', 'RRD'))
     p.post(lambda c: c.model.ExternalSector['XR'].SetExogenous('RRD', '[0.8,]*%d' % EXO_LEN))
+    Z.append(p)
+    # a single-country zone declared BEFORE a federation whose sector codes it shares (TRE, CB, HH, ...); the federation's tax flow and
+    # deposit market live in a region, not next to the treasury
+    p = Plan('xz_single_then_fed_regionplaced')
+    external(p)
+    economy(p, 'BB', 'BBD', gov='tre_cb')
+    reg_federation(p, 'F', 'FFD', place={'TF': 'N', 'DEP': 'S'})
+    gift(p, 'BB.HH', 'FS.HH')
+    p.positive.append(('EXT.XR', 'FFD'))
+    p.post(lambda c: c.model.ExternalSector['XR'].SetExogenous('FFD', '[1.25,]*%d' % EXO_LEN))
     Z.append(p)
     # external present but unused
     p = Plan('ext_unused')
